@@ -98,6 +98,9 @@ EXPLANATION = (
     "R-C20-stage-regs, a third necessary condition of the same kind: every datapath pipeline register is a RegEn/RegEnRst whose en is "
     "driven by the control unit's enable of its own stage (stage enables discovered from the valid-bit registers), and every pipeline "
     "field of the control unit is latched only under that enable. "
+    "R-C20-stage-control, a fourth one: the stall / squash / enable / advance equations of every stage satisfy, for every valuation "
+    "of registers and inputs (propositional search, intermediate signals expanded consistently), hold-when-stalled, accept-when-not-"
+    "stalled, squashed => overwritten and not advancing, stall/squash/advance => valid, squash originated only when advancing. "
     "R-C20-cksum: ChecksumFL.checksum, ChecksumCL (unpack + same function) and ChecksumRTL (8 chained step units + combine) "
     "denote the same function of the 8 words in a modular-arithmetic normal form (word order, widths, modulus 2^16, sum2:sum1); "
     "this clause is complete for the checksum part of the property up to the trusted Bits arithmetic, queueing/timing excluded.")
@@ -192,7 +195,7 @@ def merge_paths(leaves):
 
 
 _HEADS = {'const', 'bv', 'R', 'mod', 'add', 'and', 'or', 'xor', 'eq', 'ne', 'sub', 'shl', 'shr', 'ite', 'M', 'pc', 'cat', 'bits',
-          'shlc', 'shrc', 'sext', 'xcelread', 'mngr2proc', 'dmemresp', 'xcelresp', 'msg', 'w', 'not', 'nothing', 'all', 'v'}
+          'shlc', 'shrc', 'sext', 'sint', 'xcelread', 'mngr2proc', 'dmemresp', 'xcelresp', 'msg', 'w', 'not', 'nothing', 'all', 'v'}
 
 
 def _is_bit(b):
@@ -566,6 +569,9 @@ class FLModel(ProcModel):
         if path == 's.imem.read' and len(args) == 2:
             e['fetch'].append((T(args[0]), args[1]))
             return self.inst
+        if path in ('s.dmem.read', 's.dmem.write') and args and isinstance(args[0], U.PInt):
+            e['notes'].append("the effective address is an unbounded Python integer, not reduced modulo 2^32 (base 0xffffff00 plus a "
+                              "positive offset leaves the 32-bit address space, a negative offset below base gives a negative address)")
         if path == 's.dmem.read' and len(args) == 2:
             if args[1] != 4:
                 e['notes'].append(f"load of {args[1]} bytes")
@@ -1171,7 +1177,7 @@ def rule_cl(repo):
                        "redirect register is read as sentinel-or-address consistently by every stage",
                        run_cl, CL, 'ProcCL.construct', 12)
     cl_redirect_tests(repo, r)
-    r.require_floor(15)
+    r.require_floor(16)
     return r
 
 
@@ -1726,20 +1732,48 @@ def rule_cksum(repo):
     f = fl.functions.get('checksum')
     if f is None:
         raise AnalysisError("anchor vanished: ChecksumFL.checksum")
-    # FL on eight free 16-bit words
+    # FL on eight free 16-bit words.  Data-dependent control flow (`if word == 0: continue`) is followed on both outcomes;
+    # on a path that assumes some words to be zero the specification is evaluated with those words zero.
     free = [Sym(('w', i), 16) for i in range(8)]
-    want = cksum_reference(free)
-    cons = "checksum(words) == concat(sum2, sum1), sum1 += w, sum2 += sum1 (mod 2^16), words in order"
-    try:
-        got = Interp(repo, fl, Ctx(), self_name=None).call_func(U.FuncRef(fl, f), [list(free)], {})
-    except Raised as e:
-        got = None
-    r.evaluations += 1
-    if got is None or T(got) != T(want):
-        r.bad(fl, 'checksum', cons, f"the FL function computes {show(T(got)) if got is not None else 'an exception'}; the "
-                                    f"specification is {show(T(want))}")
+    cons = "checksum(words) == concat(sum2, sum1), sum1 += w, sum2 += sum1 (mod 2^16), words in order, on every path"
+
+    def cksum_paths(words, runner):
+        """-> (number of paths, first deviation or None)"""
+        index = {termof(w): i for i, w in enumerate(words)}
+
+        def run(cube, ctx):
+            try:
+                return runner(ctx)
+            except Raised as ex:
+                return ('raises', ex.what)
+        leaves = explore(U.FULL, run, limit=2048)
+        for _, trail, got in leaves:
+            assumed = list(words)
+            what = []
+            for cond, val in trail:
+                zero_of = None
+                if cond[0] == 'eq' and ('const', 0) in cond[1:]:
+                    other = cond[1] if cond[2] == ('const', 0) else cond[2]
+                    zero_of = index.get(other)
+                if zero_of is None:
+                    raise AnalysisError(f"checksum control flow depends on `{show(cond)}`, which the rule cannot relate to the specification")
+                what.append(f"word {zero_of} {'==' if val else '!='} 0")
+                if val:
+                    assumed[zero_of] = BV.const(0, 16)
+            want = cksum_reference(assumed)
+            if isinstance(got, tuple) and got and got[0] == 'raises':
+                return len(leaves), f"on the path {' and '.join(what) or 'taken by every input'} the model raises {got[1]}"
+            if got is None or T(got) != T(want):
+                return len(leaves), (f"for inputs with {' and '.join(what) or 'any words'} the model computes "
+                                     f"{show(T(got))[:300] if got is not None else 'nothing'}; the specification gives {show(T(want))[:300]}")
+        return len(leaves), None
+
+    n, dev = cksum_paths(free, lambda ctx: Interp(repo, fl, ctx, self_name=None).call_func(U.FuncRef(fl, f), [list(free)], {}))
+    r.evaluations += n
+    if dev:
+        r.bad(fl, 'checksum', cons, "the FL function deviates from the specified sums: " + dev)
     else:
-        r.ok(fl, 'checksum', cons)
+        r.ok(fl, 'checksum', cons, note=f"{n} paths")
     # pack / unpack helpers are inverse and little-endian in words
     ut = repo.mod(CK_UTILS)
     for need in ('words_to_b128', 'b128_to_words'):
@@ -1780,17 +1814,20 @@ def rule_cksum(repo):
                 return None
             raise AnalysisError(f"call of {path} outside the checksum CL model")
     sname = d.top.sname
-    try:
-        Interp(repo, cl, Ctx(), M(), self_name='s' if sname == 's' else sname).run(d.top.blocks[0].func.body)
-    except Raised:
-        sent = []
-    r.evaluations += 1
+
+    def run_clk(ctx):
+        del sent[:]
+        Interp(repo, cl, ctx, M(), self_name=sname).run(d.top.blocks[0].func.body)
+        if len(sent) != 1:
+            raise Raised(f"{len(sent)} messages sent")
+        return sent[0]
+    n, dev = cksum_paths(words, run_clk)
+    r.evaluations += n
     cons = "ChecksumCL: send( checksum( b128_to_words( msg ) ) )"
-    if len(sent) != 1 or T(sent[0]) != T(want):
-        r.bad(cl, 'ChecksumCL.construct.' + d.top.blocks[0].func.name, cons,
-              f"the CL model sends {show(T(sent[0])) if len(sent) == 1 else f'{len(sent)} messages'}; the specification is {show(T(want))}")
+    if dev:
+        r.bad(cl, 'ChecksumCL.construct.' + d.top.blocks[0].func.name, cons, "the CL model deviates from the specified sums: " + dev)
     else:
-        r.ok(cl, 'ChecksumCL.construct.' + d.top.blocks[0].func.name, cons)
+        r.ok(cl, 'ChecksumCL.construct.' + d.top.blocks[0].func.name, cons, note=f"{n} paths")
     # RTL
     rt = repo.mod(CK_RTL)
     dr = design(repo, CK_RTL, 'ChecksumRTL')
@@ -1838,17 +1875,23 @@ def ctrl_defs(info):
     """signal -> [(guards, value node)] over the combinational blocks, in program order; ff-written names"""
     defs, ff = {}, {}
 
-    def walk(stmts, guards, kind):
+    from sa.astutil import subst
+
+    def walk(stmts, guards, kind, local):
         for stx in stmts:
             if isinstance(stx, ast.AugAssign) and isinstance(stx.op, (ast.MatMult, ast.LShift)):
                 t = stx.target
                 if isinstance(t, ast.Attribute) and isinstance(t.value, ast.Name) and t.value.id == info.sname:
-                    (defs if kind == 'update' else ff).setdefault(t.attr, []).append((guards, stx.value))
+                    (defs if kind == 'update' else ff).setdefault(t.attr, []).append((guards, subst(stx.value, local) if local else stx.value))
+            elif isinstance(stx, ast.Assign) and len(stx.targets) == 1 and isinstance(stx.targets[0], ast.Name):
+                # a hoisted temporary: later uses in the block denote its value
+                local[stx.targets[0].id] = subst(stx.value, local) if local else stx.value
             elif isinstance(stx, ast.If):
-                walk(stx.body, guards + ((stx.test, True),), kind)
-                walk(stx.orelse, guards + ((stx.test, False),), kind)
+                test = subst(stx.test, local) if local else stx.test
+                walk(stx.body, guards + ((test, True),), kind, dict(local))
+                walk(stx.orelse, guards + ((test, False),), kind, dict(local))
     for b in info.blocks:
-        walk(b.func.body, (), b.kind)
+        walk(b.func.body, (), b.kind, {})
     return defs, ff
 
 
@@ -2306,8 +2349,200 @@ def rule_stage_regs(repo):
     return r
 
 
+
+# ---------------------------------------------------------------------------
+# R-C20-stage-control: propositional invariants of the stall / squash / enable equations of every stage
+def _sat(expr, defs_nf, ff, limit=400000):
+    """satisfiability by iterative deepening of the expansion of intermediate signals: unsatisfiable with the signals
+    below some depth left free implies unsatisfiable (sound proof of the invariant); a model only counts at full depth"""
+    rank = {}
+
+    def expandable(n):
+        d = defs_nf.get(n)
+        return d is not None and len(d) == 1 and not d[0][0] and n not in ff
+
+    def rk(n, seen=()):
+        if n in rank:
+            return rank[n]
+        if not expandable(n) or n in seen:
+            rank[n] = 0
+            return 0
+        sub = [x[1] for x in _walk_nf(defs_nf[n][0][1]) if isinstance(x, tuple) and len(x) == 2 and x[0] == 'sig']
+        rank[n] = 1 + max([rk(x, seen + (n,)) for x in sub] or [0])
+        return rank[n]
+    top = max([rk(x[1]) for x in _walk_nf(expr) if isinstance(x, tuple) and len(x) == 2 and x[0] == 'sig'] or [0])
+    last = None
+    for level in range(1, top + 2):
+        # expand exactly the signals whose rank is above the cut: the decision depends on the signal only, so every
+        # occurrence of a signal is treated alike (an unexpanded signal is a free atom: more behaviours, sound for a proof)
+        cut = top - level
+        last = _sat_at(expr, defs_nf, ff, lambda n: expandable(n) and rank.get(n, rk(n)) > cut, limit)
+        if last is None:
+            return None
+    return last
+
+
+def _sat_at(expr, defs_nf, ff, expand, limit):
+    """is the Boolean normal-form expression satisfiable?  Signals with a single unconditional combinational definition are
+    expanded; registers, inputs and comparisons of data are free atoms (a multi-bit signal compared with constants is one
+    variable, so `x == a` and `x == b` exclude each other).  Backtracking with three-valued evaluation; returns a model."""
+    budget = [limit]
+
+    def atom_of(t):
+        if t[0] in ('eq', 'ne'):
+            a, b = t[1], t[2]
+            for x, y in ((a, b), (b, a)):
+                if y[0] == 'k' and x[0] in ('sig', 'fld'):
+                    return ('val', x), y[1], t[0] == 'ne'
+            return ('rel', a, b), True, t[0] == 'ne'
+        return None
+
+    def ev(t, asg, depth=0):
+        budget[0] -= 1
+        if budget[0] < 0:
+            raise AnalysisError("R-C20-stage-control: the control equations are too large for the exhaustive search")
+        h = t[0]
+        if h == 'k':
+            return bool(t[1]), None
+        if h == 'not':
+            v, need = ev(t[1], asg, depth)
+            return (None if v is None else not v), need
+        if h in ('and', 'or'):
+            unknown = None
+            for x in t[1:]:
+                v, need = ev(x, asg, depth)
+                if v is None:
+                    unknown = unknown or need
+                elif v == (h == 'or'):
+                    return v, None
+            return (None, unknown) if unknown else (h == 'and', None)
+        if h == 'sig':
+            d = defs_nf.get(t[1])
+            if expand(t[1]) and depth < 40:
+                return ev(d[0][1], asg, depth + 1)
+            key = ('b', t)
+            return (asg[key], None) if key in asg else (None, (key, (False, True)))
+        a = atom_of(t)
+        if a is not None:
+            var, val, neg = a
+            if var in asg:
+                r_ = asg[var] == val
+                return (r_ != neg), None
+            return None, (var, (val, ('other', val)))
+        key = ('b', t)
+        return (asg[key], None) if key in asg else (None, (key, (False, True)))
+
+    def search(asg):
+        v, need = ev(expr, asg)
+        if v is True:
+            return asg
+        if v is False:
+            return None
+        var, dom = need
+        for choice in dom:
+            m = search(dict(asg, **{var: choice}) if isinstance(var, str) else {**asg, var: choice})
+            if m is not None:
+                return m
+        return None
+    return search({})
+
+
+def _model_text(model):
+    out = []
+    for k, v in model.items():
+        if k[0] == 'b' and k[1][0] == 'sig':
+            out.append(f"{k[1][1]}={int(bool(v))}")
+    return ', '.join(sorted(out)[:10])
+
+
+def rule_stage_control(repo):
+    r = RuleResult('R-C20-stage-control',
+                   "necessary condition only (pipeline correctness is NOT decided): for every stage the stall / squash / enable / "
+                   "advance equations of ProcCtrl satisfy, for EVERY valuation of registers and inputs (exhaustive propositional "
+                   "search): a stalled stage holds and does not advance, a stage that is not stalled accepts, a squashed "
+                   "instruction is overwritten and never advances, stall and squash imply valid, and a stage originates a squash "
+                   "only in the cycle it advances")
+    st, info = ctrl_info(repo)
+    nfz = BoolNF(repo, info)
+    defs, ff = ctrl_defs(info)
+    dnf = {}
+    for n, e in defs.items():
+        if n == 'cs':
+            continue
+        try:
+            dnf[n] = nfz.definition(e)
+        except AnalysisError:
+            pass                      # data signals (bit vectors built with concat etc.) are not Boolean equations
+    # stage enables and advance signals, discovered from the valid-bit registers
+    enable, advance, order = {}, {}, []
+    for name, entries in ff.items():
+        if name.startswith('val_'):
+            S = name[4:]
+            for guards, v in entries:
+                g = [(nfz.nf(t), pol) for t, pol in guards]
+                if any(t == ('sig', 'reset') and pol for t, pol in g):
+                    continue
+                pos = [t for t, pol in g if pol and t[0] == 'sig']
+                if pos:
+                    enable[S] = pos[-1][1]
+                t = nfz.nf(v)
+                if t[0] == 'sig' and t[1] in dnf:
+                    gset = {x[1] for x in _walk_nf(dnf[t[1]]) if isinstance(x, tuple) and x[:1] == ('sig',) and x[1].startswith('val_')}
+                    if len(gset) == 1:
+                        advance[next(iter(gset))[4:]] = t[1]
+    if len(enable) < 5:
+        raise AnalysisError(f"fewer than five pipeline stages found in ProcCtrl: {enable}")
+    sig = lambda n: ('sig', n)
+    NOT = lambda t: t[1] if t[0] == 'not' else ('not', t)
+    AND = lambda *ts: BoolNF._assoc('and', list(ts))
+    where = 'ProcCtrl.construct'
+
+    def check(cons, hyp, concl, consequence):
+        """hyp => concl for every valuation"""
+        m = _sat(AND(hyp, NOT(concl)), dnf, ff)
+        r.evaluations += 1
+        if m is None:
+            r.ok(info.mod, where, cons)
+        else:
+            r.bad(info.mod, where, cons, f"violated for {_model_text(m) or 'some valuation of the inputs'}: {consequence}")
+
+    for S in sorted(enable):
+        en, val = sig(enable[S]), sig('val_' + S)
+        stall = sig('stall_' + S) if 'stall_' + S in dnf else None
+        squash = sig('squash_' + S) if 'squash_' + S in dnf else None
+        osq = sig('osquash_' + S) if 'osquash_' + S in dnf else None
+        adv = sig(advance[S]) if S in advance else None
+        if stall is None:
+            raise AnalysisError(f"stage {S} has no stall signal")
+        hold_hyp = AND(stall, NOT(squash)) if squash else stall
+        check(f"stage {S}: stalled (and not squashed) => {enable[S]} = 0", hold_hyp, NOT(en),
+              f"the registers of stage {S} are overwritten while the instruction in it is stalled: that instruction is lost")
+        check(f"stage {S}: not stalled => {enable[S]} = 1", NOT(stall), en,
+              f"stage {S} does not accept the instruction that the previous stage hands over: that instruction is lost")
+        check(f"stage {S}: stalled => valid", stall, val, f"an empty stage {S} stalls the pipeline / holds garbage")
+        if adv:
+            check(f"stage {S}: stalled => {advance[S]} = 0", stall, NOT(adv),
+                  f"a stalled instruction in {S} also advances to the next stage: it is executed twice")
+            check(f"stage {S}: {advance[S]} => valid", adv, val, f"a bubble in {S} becomes a valid instruction in the next stage")
+        if squash:
+            check(f"stage {S}: squashed => {enable[S]} = 1", squash, en,
+                  f"a squashed (wrong-path) instruction that is stalled in {S} at the same time keeps its valid bit and is executed "
+                  f"after the branch")
+            check(f"stage {S}: squashed => valid", squash, val, f"a bubble in {S} is reported as squashed")
+            if adv:
+                check(f"stage {S}: squashed => {advance[S]} = 0", squash, NOT(adv),
+                      f"a squashed (wrong-path) instruction in {S} advances and is executed after the taken branch")
+        if osq:
+            check(f"stage {S}: originates a squash => valid and not stalled", osq, AND(val, NOT(stall)),
+                  f"a taken branch that is stalled in {S} squashes and redirects the front end in every stalled cycle, not once: "
+                  f"instructions fetched from the branch target are killed again / the target is requested repeatedly")
+    r.observations.append(f"stage enables {dict(sorted(enable.items()))}, advance signals {dict(sorted(advance.items()))}")
+    r.require_floor(30)
+    return r
+
+
 RULES = [rule_isa_doc, rule_encoding, rule_isa_set, rule_decode, rule_fl, rule_cl, rule_rtl, rule_arch, rule_cksum,
-         rule_hazard_symmetry, rule_gating, rule_stage_regs]
+         rule_hazard_symmetry, rule_gating, rule_stage_regs, rule_stage_control]
 
 
 # ---------------------------------------------------------------------------
@@ -2336,6 +2571,7 @@ MUTANTS = [
     _m('fl-xcel-range', FL, "elif 0x7E0 <= inst.csrnum <= 0x7FF:\n            s.R[inst.rd] = s.xcel.read", "elif 0x7E0 <= inst.csrnum <= 0x7EF:\n            s.R[inst.rd] = s.xcel.read", 'R-C20-fl'),
     _m('fl-and-becomes-or', FL, "s.R[inst.rd] = s.R[inst.rs1] & s.R[inst.rs2]", "s.R[inst.rd] = s.R[inst.rs1] | s.R[inst.rs2]", 'R-C20-fl'),
     _m('fl-and-branch-lost', FL, 'elif inst_name == "and":', 'elif inst_name == "andn":', 'R-C20'),
+    _m('fl-lw-address-in-python-ints', FL, "addr = s.R[inst.rs1] + sext( inst.i_imm, 32 )", "addr = s.R[inst.rs1].uint() + inst.i_imm.int()", 'R-C20-fl'),
     _m('fl-fetch-address', FL, "s.raw_inst = s.imem.read( s.PC, 4 )", "s.raw_inst = s.imem.read( s.PC + 4, 4 )", 'R-C20-fl'),
     _m('fl-lw-pc-not-advanced', FL, "s.R[inst.rd] = s.dmem.read( addr, 4 )\n          s.PC += 4", "s.R[inst.rd] = s.dmem.read( addr, 4 )", 'R-C20-fl'),
     # --- tinyrv0_encoding -----------------------------------------------------------------------------------------
@@ -2420,6 +2656,12 @@ MUTANTS = [
     _m('stage-enable-wiring-crossed', RTL, "s.ctrl.reg_en_M        //= s.dpath.reg_en_M", "s.ctrl.reg_en_X        //= s.dpath.reg_en_M", 'R-C20-stage-regs'),
     _m('stage-ctrl-M-fields-latched-under-X', CTRL, "      elif s.reg_en_M:\n        s.val_M            <<= s.next_val_X", "      elif s.reg_en_X:\n        s.val_M            <<= s.next_val_X", 'R-C20-stage-regs'),
     _m('stage-ctrl-field-latched-unconditionally', CTRL, "        s.proc2mngr_en_W   <<= s.proc2mngr_en_M\n", "      s.proc2mngr_en_W   <<= s.proc2mngr_en_M\n", 'R-C20-stage-regs'),
+    _m('sc-squash-originated-while-stalled', CTRL, "s.osquash_X @= s.val_X & ~s.stall_X & s.pc_redirect_X", "s.osquash_X @= s.val_X & s.pc_redirect_X", 'R-C20-stage-control'),
+    _m('sc-squashed-stalled-D-keeps-valid', CTRL, "s.reg_en_D @= ~s.stall_D | s.squash_D", "s.reg_en_D @= ~s.stall_D", 'R-C20-stage-control'),
+    _m('sc-squashed-D-advances', CTRL, "s.next_val_D @= s.val_D & ~s.stall_D & ~s.squash_D", "s.next_val_D @= s.val_D & ~s.stall_D", 'R-C20'),
+    _m('sc-stall-M-without-valid', CTRL, "s.stall_M  @= s.val_M & ( s.ostall_M | s.ostall_W )", "s.stall_M  @= ( s.ostall_M | s.ostall_W )", 'R-C20-stage-control'),
+    _m('sc-reg-en-X-follows-M', CTRL, "s.reg_en_X @= ~s.stall_X", "s.reg_en_X @= ~s.stall_M", 'R-C20-stage-control'),
+    _m('sc-stalled-X-advances', CTRL, "s.next_val_X @= s.val_X & ~s.stall_X", "s.next_val_X @= s.val_X", 'R-C20'),
     # --- TinyRV0InstRTL -------------------------------------------------------------------------------------------
     _m('dec-add-funct3', INSTRTL, "if   s.in_[FUNCT3] == 0b000:     s.out @= ADD", "if   s.in_[FUNCT3] == 0b100:     s.out @= ADD", 'R-C20'),
     _m('dec-sll-srl-swapped', INSTRTL, "elif s.in_[FUNCT3] == 0b001:     s.out @= SLL", "elif s.in_[FUNCT3] == 0b001:     s.out @= SRL", 'R-C20'),
@@ -2458,6 +2700,7 @@ MUTANTS = [
     _m('ck-rtl-word-order', CK_RTL, "s.in_q.deq.ret[i*16:(i+1)*16]", "s.in_q.deq.ret[(7-i)*16:(8-i)*16]", 'R-C20-cksum'),
     _m('ck-rtl-sum2-uses-word', CK_RTL, "temp2 = s.sum1_out + s.sum2_in", "temp2 = zext(s.word_in, 32) + s.sum2_in", 'R-C20-cksum'),
     _m('ck-rtl-last-step-skipped', CK_RTL, "s.sum1 //= s.steps[-1].sum1_out", "s.sum1 //= s.steps[-2].sum1_out", 'R-C20-cksum'),
+    _m('ck-fl-zero-word-skips-sum2', CK_FL, "  for word in words:\n    sum1", "  for word in words:\n    if word == 0: continue\n    sum1", 'R-C20-cksum'),
     _m('ck-fl-sum2-adds-word', CK_FL, "sum2 = ( sum2 + sum1 ) & 0xffff", "sum2 = ( sum2 + word ) & 0xffff", 'R-C20-cksum'),
     _m('ck-fl-result-order', CK_FL, "return concat( sum2, sum1 )", "return concat( sum1, sum2 )", 'R-C20-cksum'),
     _m('ck-cl-word-zeroed', CK_CL, "        result = checksum( words )", "        words[5] = b16(0)\n        result = checksum( words )", 'R-C20-cksum'),
@@ -2497,6 +2740,9 @@ EQUIV = [
     _m2('dp-stage-registers-reordered', [(DPATH, "    s.op1_reg_X = m = RegEnRst( Bits32, reset_value=0 )\n    m.en  //= s.reg_en_X\n    m.in_ //= s.op1_byp_mux_D.out\n\n    # op2 reg\n\n    s.op2_reg_X = m = RegEnRst( Bits32, reset_value=0 )\n    m.en  //= s.reg_en_X\n    m.in_ //= s.op2_sel_mux_D.out",
                                           "    s.op2_reg_X = m = RegEnRst( Bits32, reset_value=0 )\n    m.in_ //= s.op2_sel_mux_D.out\n    m.en  //= s.reg_en_X\n\n    # op1 reg\n\n    s.op1_reg_X = m = RegEnRst( Bits32, reset_value=0 )\n    m.en  //= s.reg_en_X\n    m.in_ //= s.op1_byp_mux_D.out")]),
     _m('ctrl-reg-X-assignments-reordered', CTRL, "        s.alu_fn_X         <<= s.alu_fn_D\n        s.rf_waddr_X       <<= s.rf_waddr_D", "        s.rf_waddr_X       <<= s.rf_waddr_D\n        s.alu_fn_X         <<= s.alu_fn_D"),
+    _m('sc-reg-en-de-morgan', CTRL, "s.reg_en_D @= ~s.stall_D | s.squash_D", "s.reg_en_D @= ~( s.stall_D & ~s.squash_D )"),
+    _m('sc-osquash-hoisted-temporary', CTRL, "s.osquash_X @= s.val_X & ~s.stall_X & s.pc_redirect_X", "leaving_X = s.val_X & ~s.stall_X\n      s.osquash_X @= s.pc_redirect_X & leaving_X"),
+    _m('sc-next-val-conjuncts-reordered', CTRL, "s.next_val_D @= s.val_D & ~s.stall_D & ~s.squash_D", "s.next_val_D @= ~s.squash_D & s.val_D & ~s.stall_D"),
     _m('ctrl-dont-care-renamed', CTRL, "if   inst == NOP  : s.cs @= concat( y, br_na,  n, imm_x, bm_x,   n, alu_x,   nr, wm_a, n,  n, n )",
        "if   inst == NOP  : s.cs @= concat( y, br_x,   n, imm_i, bm_rf,  n, alu_cp0, nr, wm_x, n,  n, n )"),
     _m2('alu-code-renumbered-consistently', [(CTRL, "alu_and = b4( 5 )", "alu_and = b4( 9 )"), (MISC, "elif s.fn == 5: s.out @= s.in0 & s.in1", "elif s.fn == 9: s.out @= s.in1 & s.in0")]),
@@ -2508,6 +2754,8 @@ EQUIV = [
     _m('name-nop-in-hex', ENC, "if self.bits == 0b00000000000000000000000000010011:", "if self.bits == 0x13:"),
     _m('name-opcode-tests-reordered', ENC, '    elif self.opcode == 0b0100011:\n      if self.funct3 == 0b010: return "sw"\n\n    elif self.opcode == 0b0000011:\n      if self.funct3 == 0b010: return "lw"',
        '    elif self.opcode == 0b0000011:\n      if self.funct3 == 0b010: return "lw"\n\n    elif self.opcode == 0b0100011:\n      if self.funct3 == 0b010: return "sw"'),
+    _m('ck-fl-zero-word-skips-only-sum1', CK_FL, "    sum1 = ( sum1 + word ) & 0xffff", "    if word != 0:\n      sum1 = ( sum1 + word ) & 0xffff"),
+    _m('fl-shamt-via-uint', FL, "s.R[inst.rs1] << (s.R[inst.rs2] & 0x1F)", "s.R[inst.rs1] << (s.R[inst.rs2].uint() & 0x1F)"),
     _m('ck-rtl-unmasked-intermediate', CK_RTL, "temp2 = s.sum1_out + s.sum2_in", "temp2 = temp1 + s.sum2_in"),
     _m('ck-rtl-add-commuted', CK_RTL, "temp1 = zext(s.word_in, 32) + s.sum1_in", "temp1 = s.sum1_in + zext(s.word_in, 32)"),
     _m('ck-fl-redundant-mask-dropped', CK_FL, "sum1 = ( sum1 + word ) & 0xffff", "sum1 = sum1 + word"),
@@ -2523,8 +2771,9 @@ LEVEL_TEXT = ("Clauses only. Static single-instruction agreement of the three Ti
               "delays) is NOT decided.")
 LEVEL_NOTE = ("Not decided: pipeline control of ProcRTL/ProcCL (stalls, bypass selection, squashes, back-pressure, response ordering) -- "
               "R-C20-hazard-symmetry (rs1/rs2 sibling agreement of hazard and bypass logic, operand enables vs ISA register reads) and "
-              "R-C20-gating (side-effect enables gated like their stage's advance condition) and R-C20-stage-regs (all registers of a "
-              "stage held by that stage's enable) are necessary code-shape conditions only, "
+              "R-C20-gating (side-effect enables gated like their stage's advance condition) R-C20-stage-regs (all registers of a "
+              "stage held by that stage's enable) and R-C20-stage-control (per-stage propositional invariants of the stall/squash/enable "
+              "equations over all valuations, reachability ignored) are necessary code-shape conditions only, "
               "they do not establish pipeline correctness; also not decided: "
               "instruction adjacency, timing, termination, adapters, the generic assembler driver. Decided: decode uniqueness and "
               "decoder/table agreement on all legal words, instruction-set agreement, per-instruction datapath semantics of FL, CL and "
